@@ -504,6 +504,9 @@ func (rl *realLog) compare(d dcase, cls dmgT, exp *obsT, ro *realObs, searchAllo
 					return verdict{Key: "search/tail-not-written", Desc: fmt.Sprintf("%s: the reader returned with the marker yields %s", where, seqString(rs.Tail))}
 				}
 			}
+			if tm := len(rs.Tail) - 1; at >= 1 && tm < k-at {
+				return verdict{Key: "search/tail-lost-messages", Desc: fmt.Sprintf("%s: %d intact records follow the marker before the damage, the returned reader yields %s", where, k-at, seqString(rs.Tail))}
+			}
 			okMarker := false
 			for r := 1; r <= n; r++ {
 				if rl.Recs[r-1] == rs.H && (at < 0 || at == r) && rl.intactBody(d, r) {
